@@ -67,6 +67,21 @@ func buildProtoc(sc string) error {
 	if out, err := cmd.CombinedOutput(); err != nil {
 		return fmt.Errorf("stand-in protoc does not build: %v\n%s", err, out)
 	}
+	if os.Getenv("VERIF_C10_REALPB") != "" {
+		// cross-validation mode: *.pb.go files come from the REAL protoc-gen-go, built from the module cache
+		// (google.golang.org/protobuf/cmd/protoc-gen-go); *_grpc.pb.go files stay stand-ins (protoc-gen-go-grpc is
+		// a separate module that is not in the cache)
+		plugin := filepath.Join(bin, "protoc-gen-go")
+		cmd := exec.Command("go", "build", "-o", plugin, "google.golang.org/protobuf/cmd/protoc-gen-go")
+		cmd.Dir = filepath.Join(vc.Root(), "lab")
+		cmd.Env = append(os.Environ(), "GOFLAGS=-mod=mod", "GOPROXY=off", "GOSUMDB=off", "GOTOOLCHAIN=local")
+		if out, err := cmd.CombinedOutput(); err != nil {
+			return fmt.Errorf("real protoc-gen-go does not build from the module cache: %v\n%s", err, out)
+		}
+		if err := os.Setenv("VERIF_PROTOC_GEN_GO", plugin); err != nil {
+			return err
+		}
+	}
 	return os.Setenv("PATH", bin+string(os.PathListSeparator)+os.Getenv("PATH"))
 }
 
